@@ -165,6 +165,15 @@ T.append(tree('D18 deep reuse', cmd('app', 'root', extra=[grp('Application Optio
         cmd('ls', 'exec', extra=[grp('Ls', [opt('l', 'long')])])]),
     cmd('init', 'exec', extra=[grp('Init', [opt('q', 'quiet')])])])))
 
+# D19 short names only, on the parser and on a command (the narrowest possible option column), one described positional with a
+# non-ASCII name and a text long enough to wrap
+T.append(tree('D19 short only', cmd('app', 'root', extra=[grp('Application Options', [
+    opt('a', '', 'flag', desc='first flag with a description that is long enough to be wrapped on a narrow terminal'),
+    opt('b', '', 'flag', desc='second')])], cmds=[
+    cmd('go', 'exec', desc='go somewhere', extra=[grp('Go', [opt('x', '', 'flag', desc='an x that also has quite a few words to say about itself'), opt('y', '', 'flag')])],
+        args=[{'name': 'cible', 'vtype': 'string', 'desc': 'the target of the journey, described at some length so that the text wraps around'},
+              {'name': 'répertoire', 'vtype': 'string', 'desc': 'where to start from: a directory name, also described at sufficient length to wrap'}])])))
+
 with open('argparse.ndjson', 'w') as f:
     for i, t in enumerate(T, 1):
         t['id'] = i
